@@ -40,13 +40,95 @@ pub struct Run {
 
 struct RunawayMarker;
 
+/// Which of the engine's two copies of the forward-chaining loop is driven.
+#[derive(Clone, Copy, Debug, PartialEq, Eq)]
+pub enum Entry {
+    /// `execute_with_callback`: firings observed through the callback
+    WithCallback,
+    /// `execute` (= `execute_at_time(now)`): firings observed through a custom action handler
+    /// `Trace("<rule>")` appended as the last action of every rule
+    Execute,
+}
+
+impl Entry {
+    pub fn name(self) -> &'static str {
+        match self {
+            Entry::WithCallback => "execute_with_callback",
+            Entry::Execute => "execute",
+        }
+    }
+    pub fn from_name(s: &str) -> Entry {
+        if s == "execute" {
+            Entry::Execute
+        } else {
+            Entry::WithCallback
+        }
+    }
+}
+
+/// Render the rules, load them in source order and run the chosen entry point once.
+pub fn run_forward_rules(rules: &[RuleAst], store: &Store, max_cycles: usize, disabled: &[String], entry: Entry) -> Run {
+    match entry {
+        Entry::WithCallback => run_forward_impl(&fmt_rules(rules), rules.len(), store, max_cycles, disabled, entry),
+        Entry::Execute => {
+            let traced: Vec<RuleAst> = rules
+                .iter()
+                .map(|r| {
+                    let mut r = r.clone();
+                    r.actions.push(Action::Call("Trace".into(), vec![Rhs::Lit(super::val::V::Str(r.name.clone()))]));
+                    r
+                })
+                .collect();
+            run_forward_impl(&fmt_rules(&traced), rules.len(), store, max_cycles, disabled, entry)
+        }
+    }
+}
+
 /// Parse `text`, load the rules in source order, run `execute_with_callback` once.
 pub fn run_forward(text: &str, n_rules_expected: usize, store: &Store, max_cycles: usize) -> Run {
-    run_forward_cfg(text, n_rules_expected, store, max_cycles, &[])
+    run_forward_impl(text, n_rules_expected, store, max_cycles, &[], Entry::WithCallback)
 }
 
 /// As `run_forward`, with some rules disabled through `KnowledgeBase::set_rule_enabled`.
 pub fn run_forward_cfg(text: &str, n_rules_expected: usize, store: &Store, max_cycles: usize, disabled: &[String]) -> Run {
+    run_forward_impl(text, n_rules_expected, store, max_cycles, disabled, Entry::WithCallback)
+}
+
+thread_local! {
+    static TRACE_SINK: std::cell::RefCell<Vec<(String, Result<Store, String>)>> = const { std::cell::RefCell::new(Vec::new()) };
+    static PASSES: std::cell::Cell<usize> = const { std::cell::Cell::new(0) };
+    static RUNAWAY: std::cell::Cell<&'static str> = const { std::cell::Cell::new("") };
+}
+
+/// thread-local stand-ins for Rc<Cell<_>> (the action handler must be Send + Sync)
+#[derive(Clone, Copy)]
+struct TlPasses;
+impl TlPasses {
+    fn get(&self) -> usize {
+        PASSES.with(|p| p.get())
+    }
+    fn set(&self, v: usize) {
+        PASSES.with(|p| p.set(v))
+    }
+    fn clone(&self) -> TlPasses {
+        TlPasses
+    }
+}
+#[derive(Clone, Copy)]
+struct TlRunaway;
+impl TlRunaway {
+    fn get(&self) -> &'static str {
+        RUNAWAY.with(|p| p.get())
+    }
+    fn set(&self, v: &'static str) {
+        RUNAWAY.with(|p| p.set(v))
+    }
+    fn clone(&self) -> TlRunaway {
+        TlRunaway
+    }
+}
+
+fn run_forward_impl(text: &str, n_rules_expected: usize, store: &Store, max_cycles: usize, disabled: &[String], entry: Entry) -> Run {
     let mut run = Run {
         parse_error: None,
         parsed_rules: 0,
@@ -94,8 +176,10 @@ pub fn run_forward_cfg(text: &str, n_rules_expected: usize, store: &Store, max_c
     let mut firings: Vec<Firing> = Vec::new();
     // passes are counted by an observer on the H2 markers; it also enforces the logical step
     // bound "no more than max_cycles + 1 passes" by unwinding out of a runaway loop
-    let passes = std::rc::Rc::new(std::cell::Cell::new(0usize));
-    let runaway = std::rc::Rc::new(std::cell::Cell::new(""));
+    let passes = TlPasses;
+    let runaway = TlRunaway;
+    passes.set(0);
+    runaway.set("");
     {
         let passes = passes.clone();
         let runaway = runaway.clone();
@@ -109,21 +193,55 @@ pub fn run_forward_cfg(text: &str, n_rules_expected: usize, store: &Store, max_c
             }
         })));
     }
-    let res = pan::catch_frames(|| {
-        engine.execute_with_callback(&facts, |name, f| {
-            let after = Store::from_engine_map(&f.get_all_facts());
-            let p = passes.get();
-            firings.push(Firing {
-                rule: name.to_string(),
-                pass: if p > 0 { Some(p - 1) } else { None },
-                after,
+    let res = match entry {
+        Entry::WithCallback => pan::catch_frames(|| {
+            engine.execute_with_callback(&facts, |name, f| {
+                let after = Store::from_engine_map(&f.get_all_facts());
+                let p = passes.get();
+                firings.push(Firing {
+                    rule: name.to_string(),
+                    pass: if p > 0 { Some(p - 1) } else { None },
+                    after,
+                });
+                if firings.len() > bound {
+                    runaway.set("more callbacks than max_cycles x #rules");
+                    std::panic::panic_any(RunawayMarker);
+                }
+            })
+        }),
+        Entry::Execute => {
+            TRACE_SINK.with(|t| t.borrow_mut().clear());
+            let passes2 = passes.clone();
+            let runaway2 = runaway.clone();
+            // the handler cannot borrow `firings` (it must be 'static): it records
+            // (rule, pass, snapshot) into a thread-local that is drained afterwards
+            engine.register_action_handler("Trace", move |params, f| {
+                let name = match params.get("0") {
+                    Some(rust_rule_engine::Value::String(s)) => s.clone(),
+                    other => format!("{:?}", other),
+                };
+                let after = Store::from_engine_map(&f.get_all_facts());
+                let p = passes2.get();
+                let n = TRACE_SINK.with(|t| {
+                    let mut t = t.borrow_mut();
+                    t.push((format!("{}\u{1f}{}", p, name), after));
+                    t.len()
+                });
+                if n > bound {
+                    runaway2.set("more firings than max_cycles x #rules");
+                    std::panic::panic_any(RunawayMarker);
+                }
+                Ok(())
             });
-            if firings.len() > bound {
-                runaway.set("more callbacks than max_cycles x #rules");
-                std::panic::panic_any(RunawayMarker);
+            let r = pan::catch_frames(|| engine.execute(&facts));
+            for (tag, after) in TRACE_SINK.with(|t| std::mem::take(&mut *t.borrow_mut())) {
+                let (p, name) = tag.split_once('\u{1f}').unwrap_or(("0", tag.as_str()));
+                let p: usize = p.parse().unwrap_or(0);
+                firings.push(Firing { rule: name.to_string(), pass: if p > 0 { Some(p - 1) } else { None }, after });
             }
-        })
-    });
+            r
+        }
+    };
     verif_hooks::set_event_observer(None);
     let _ = verif_hooks::take_events();
     run.passes = passes.get();
